@@ -34,7 +34,7 @@ use rustc_span::Span;
 
 static RECORDS: Mutex<Vec<String>> = Mutex::new(Vec::new());
 
-const DRIVER_VERSION: &str = "bcfacts-3";
+const DRIVER_VERSION: &str = "bcfacts-4";
 
 // ------------------------------------------------------------------------------------------
 // JSON helpers
@@ -829,6 +829,7 @@ fn dump_body<'tcx>(tcx: TyCtxt<'tcx>, def: LocalDefId) {
     if matches!(kind, DefKind::Fn | DefKind::AssocFn) {
         let vis = format!("{:?}", tcx.visibility(did));
         let _ = write!(o, ",\"vis\":{}", jstr(&vis));
+
         let params: Vec<String> = tcx
             .fn_arg_idents(did)
             .iter()
@@ -912,12 +913,14 @@ fn dump_items<'tcx>(tcx: TyCtxt<'tcx>) {
                 let sig = sig.skip_binder();
                 let ins: Vec<String> = sig.inputs().iter().map(|t| jstr(&ty_str(*t))).collect();
                 let hdr = format!("{:?}", sig.safety());
+                let exported = tcx.effective_visibilities(()).is_reachable(ld);
                 RECORDS.lock().unwrap().push(format!(
-                    "{{\"kind\":\"fnsig\",\"path\":{},\"inputs\":{},\"output\":{},\"safety\":{}}}",
+                    "{{\"kind\":\"fnsig\",\"path\":{},\"inputs\":{},\"output\":{},\"safety\":{},\"exported\":{}}}",
                     jstr(&dpath(tcx, did)),
                     jlist(&ins),
                     jstr(&ty_str(sig.output())),
-                    jstr(&hdr)
+                    jstr(&hdr),
+                    exported
                 ));
             }
             _ => {}
